@@ -1361,6 +1361,33 @@ static Outcome p_fdops(FCase const &c) {
 }
 
 // ======================================================================================================================
+// many pending timers: N timers armed at once on one loop (N beyond the 1000-slot timer-id table), then all cancelled (variant 0: in order, 1: in reverse,
+// 2: every second one, the others fire at a near deadline): distinct ids, every handler exactly once, canceled iff cancelled
+static Outcome p_manytimers(FCase const &c) {
+    VR.eval(); VR.nontrivial(vr::fnv(std::string("manytimers"), 977 + c.reactor * 10 + c.variant + c.rounds * 100));
+    FScn s(c.reactor);
+    std::thread lt([&] { s.srv.run(); });
+    Outcome res = ok(); bool wd = false;
+    int n = c.rounds; std::vector<int> ids(n); std::set<int> distinct;
+    booster::ptime far = booster::ptime::now() + booster::ptime::seconds(3600), near = booster::ptime::now() + booster::ptime::milliseconds(300);
+    for (int i = 0; i < n; i++) { bool fires = c.variant == 2 && (i & 1); ids[i] = s.srv.set_timer_event(fires ? near : far, s.h(i + 1)); distinct.insert(ids[i]); }
+    wd |= !s.flush();
+    if (c.variant == 1) { for (int i = n - 1; i >= 0; i--) s.srv.cancel_timer_event(ids[i]); }
+    else for (int i = 0; i < n; i++) if (c.variant == 0 || !(i & 1)) s.srv.cancel_timer_event(ids[i]);
+    wd |= !s.flush(); wd |= !s.flush();
+    if (c.variant == 2) { std::this_thread::sleep_for(std::chrono::milliseconds(400)); for (int k = 0; k < 50 && !wd; k++) { wd |= !s.flush(); bool all = true; for (int i = 1; i < n && all; i += 2) all = s.st(i + 1).first > 0; if (all) break; std::this_thread::sleep_for(std::chrono::milliseconds(100)); } }
+    if (!wd) {
+        if ((int)distinct.size() != n) res = bad("timer:id-reused-while-pending", std::to_string(n) + " timers pending at once got only " + std::to_string(distinct.size()) + " distinct ids");
+        for (int i = 0; i < n && res.ok(); i++) {
+            auto a = s.st(i + 1); bool fires = c.variant == 2 && (i & 1);
+            if (a.first != 1) res = bad(a.first == 0 ? "timer:handler-never-invoked" : "timer:handler-invoked-twice", "timer " + std::to_string(i) + " of " + std::to_string(n) + " pending at once (" + (fires ? "near deadline, not cancelled" : "far deadline, cancelled") + "): invoked " + std::to_string(a.first) + " time(s)");
+            else if (a.second != (fires ? 1 : 2)) res = bad("timer:wrong-status", "timer " + std::to_string(i) + " of " + std::to_string(n) + (fires ? " expired but was reported with status " : " was cancelled an hour before its deadline but was reported with status ") + std::to_string(a.second));
+        }
+    } else VR.inconclusive++;
+    s.srv.stop(); lt.join();
+    VR.cls("manytimers.variant" + std::to_string(c.variant) + ".n" + std::to_string(n));
+    return res;
+}
 int main(int argc, char **argv) {
     g_replay = vr::replay_arg(argc, argv) != nullptr;
     g_watchdog_s = (int)vr::envl("C17_WATCHDOG", 90);
@@ -1371,6 +1398,7 @@ int main(int argc, char **argv) {
     props.push_back(vr::prop<PCase>("pool", gen_pool(), p_pool));
     props.push_back(vr::prop<FCase>("fdops-rearm", rc::gen::just(FCase()), p_fdops));
     props.push_back(vr::prop<FCase>("fdops-queued", rc::gen::just(FCase()), p_fdops));
+    props.push_back(vr::prop<FCase>("manytimers", rc::gen::just(FCase()), p_manytimers));
     std::string mode = vr::env("C17_MODE", "");
     if (!g_replay && (mode == "fdops" || mode == "fixed")) {
         vr::install_crash_hooks();
@@ -1400,6 +1428,12 @@ int main(int argc, char **argv) {
             if (first < P_MAX) c.eps[1].probes.push_back(first);          // first == P_MAX: stop() is the first operation
             VR.cls("grid.restart.cases");
             good = vr::run_direct("loop", c, p_loop) && good;
+        }
+        // many-timers grid: reactor x cancel pattern x number of timers pending at once (around and beyond the 1000-slot id table)
+        if (mode == "fixed") for (int r = 1; r <= 3; r++) for (int v = 0; v < 3; v++) for (int n : {10, 999, 1000, 1001, 1500, 2500}) {
+            FCase c; c.reactor = r; c.variant = v; c.rounds = n;
+            VR.cls("grid.manytimers.cases");
+            good = vr::run_direct("manytimers", c, p_manytimers) && good;
         }
         for (int r = 1; r <= 3; r++) for (int v = 0; v < 4; v++) { FCase c; c.reactor = r; c.variant = v; c.rounds = (int)vr::envl("C17_FDOPS_ROUNDS", 200); good = vr::run_direct(v == 1 ? "fdops-queued" : "fdops-rearm", c, p_fdops) && good; }
         VR.finish();
